@@ -1105,6 +1105,8 @@ impl Sink for ZipSink {
     fn pair(&mut self, v: D, s: &'static str) {
         if self.pairs.len() < 70000 {
             self.pairs.push((v, s));
+        } else {
+            panic!("runaway iteration: more than 70000 pairs from iter().zip(names())");
         }
     }
 }
